@@ -3,12 +3,15 @@
 proof:          lean/MPilot/Props/C01.lean  (memoised pull evaluation: at most once, at least once, dependencies first, idempotent re-run)
 correspondence: real Program.from_source + run()/result accesses on random DAGs (references through direct parameters, lists,
                 nested lists; every textual order for small graphs) with logging stub bodies vs the model's run loop: full event log
-oracles:        execution count per command = 1; every read returns the finished producer's final result; re-running adds nothing
+oracles:        execution count per command = 1; every read returns the finished producer's final result; re-running adds nothing;
+                every command reads exactly the results it names (result names differing only in letter case and other look-alike spellings);
+                text in the undeclared arguments of a plug-in command is no reference, whatever it spells; a ladder of result sizes up to
+                millions of cells (run, every result read again, run again, a consumer added later: nothing executes a second time)
 """
 import itertools
 
 from .. import common, prog, progrun, graphs
-from ..progrun import Scenario
+from ..progrun import Scenario, Name
 
 
 def decl_classes():
@@ -103,6 +106,85 @@ def scenarios(ctx):
         if rng.random() < 0.5:
             ops.append(("result", rng.choice(names)))
         out.append(Scenario(graphs.shuffled(rng, cmds), ops=ops))
+    out += extra_input_scenarios(ctx) + spelling_scenarios(ctx)
+    return out
+
+
+def renamed(cmds, mapping):
+    """the same commands under other result names (references follow)"""
+    def sub(v):
+        if isinstance(v, Name):
+            return Name(mapping.get(v.s, v.s))
+        return [sub(x) for x in v] if isinstance(v, list) else v
+    return [(mapping.get(r, r), c, [(n, sub(v)) for n, v in args]) for r, c, args in cmds]
+
+
+def extra_input_scenarios(ctx):
+    """A command that accepts undeclared arguments (allow_extra_inputs: plug-ins with free-form options) is handed them as written; they are text, not
+    references - also when the text happens to spell the name of a result (a label, a title, a list of layer names).  Such a model is the acyclic graph
+    of its *declared* references: run() executes every command once, including the ones whose name some option spells and which nothing references"""
+    rng = ctx.rng
+    out = []
+
+    def extras(names, k):
+        forms = []
+        for _ in range(k):
+            nm = rng.choice(names)
+            forms.append(rng.choice([Name(nm), nm, [Name(nm), Name(rng.choice(names))], [Name(nm), "no such result", 5], [[Name(nm)], [Name(rng.choice(names)), 2.5]],
+                                     {"layer": nm, nm: "x"}, [nm]]))
+        keys = rng.sample(["Title", "Layers", "Label", "Scale", "Legend", "Group"], k)
+        return list(zip(keys, forms))
+    # directed, every run: the options name commands nothing references (they are started by run() itself or not at all), commands that are referenced
+    # elsewhere, the command's own consumer and the command itself (text cannot close a loop) - in every file order
+    base = [("raw", "N", []), ("summary", "N", [("One", Name("raw"))]), ("elevation", "W", [("One", Name("raw"))]), ("user", "N", [("One", Name("note"))])]
+    for xargs in ([("One", Name("raw")), ("Title", Name("summary")), ("Layers", [Name("elevation"), Name("slope")]), ("Scale", 5)],
+                  [("Title", "summary"), ("One", Name("raw"))],
+                  [("Layers", [[Name("elevation")], [Name("summary"), Name("raw")]]), ("Many", [Name("raw")])],
+                  [("Legend", {"summary": "elevation", "x": "summary"})],
+                  [("Title", Name("user")), ("Label", Name("note")), ("Many", [Name("raw"), Name("raw")])]):
+        cmds = base + [("note", "X", xargs)]
+        for p in rng.sample(list(itertools.permutations(cmds)), ctx.budget(2, 120)):
+            out.append(Scenario(list(p), ops=rand_ops(rng, cmds)))
+    for _ in range(ctx.budget(15, 600)):
+        n = rng.randrange(2, 9)
+        cmds = graphs.dag_commands(rng, n, cmd_pool=("N", "X", "X", "W"))
+        names = [c[0] for c in cmds]
+        if not any(c[1] == "X" for c in cmds):
+            k = rng.randrange(n)
+            cmds[k] = (cmds[k][0], "X", cmds[k][2])
+        cmds = [(r, c, list(a) + (extras(names, rng.randrange(1, 4)) if c == "X" else [])) for r, c, a in cmds]
+        out.append(Scenario(graphs.shuffled(rng, cmds), ops=rand_ops(rng, cmds)))
+    return out
+
+
+SPELLINGS = (["temp", "Temp", "TEMP", "tEmp", "temP"], ["x", "X", "x_", "_x", "X_"], ["Elev", "ELEV", "elev", "Elev2", "ELEV2", "elev_2"], ["ab", "aB", "Ab", "AB", "a_b", "A_B"])
+
+
+def spelling_scenarios(ctx):
+    """Result names are exact: `Temp`, `TEMP` and `temp` are three results (the loader accepts them side by side).  The same graphs as above with names that
+    differ only in letter case, in a trailing / leading underscore or digit: every command reads the results it names and no look-alike"""
+    rng = ctx.rng
+    out = []
+    # directed: a producer per spelling, a consumer of each single one and one of all of them in a list - in many file orders
+    for fam in SPELLINGS:
+        prods = [(nm, "N", []) for nm in fam[:3]]
+        cons = [("use%d" % i, "N", [("One", Name(nm))]) for i, nm in enumerate(fam[:3])]
+        allc = [("all", "N", [("Many", [Name(nm) for nm in fam[:3]]), ("Nested", [[Name(fam[1])], [Name(fam[0])]])])]
+        cmds = prods + cons + allc
+        for _ in range(ctx.budget(2, 60)):
+            out.append(Scenario(graphs.shuffled(rng, cmds), ops=rand_ops(rng, cmds)))
+        # a later command added through the API names one of them too
+        late = ("late", "N", [("One", Name(fam[0])), ("Many", [Name(fam[2]), Name(fam[1])])])
+        out.append(Scenario(graphs.shuffled(rng, prods + cons), ops=[("run",), ("add", late), ("run",), ("result", fam[0])]))
+    for _ in range(ctx.budget(15, 600)):
+        n = rng.randrange(2, 7)
+        cmds = graphs.dag_commands(rng, n, cmd_pool=("N", "N", "X", "W"))
+        fam = rng.choice(SPELLINGS)
+        pool = list(fam) if n <= len(fam) else list(fam) + ["c%d" % i for i in range(n)]
+        mapping = dict(zip([c[0] for c in cmds], rng.sample(pool[:max(n, len(fam))], n)))
+        cmds = renamed(cmds, mapping)
+        for p in ([graphs.shuffled(rng, cmds) for _o in range(2)] if n > 3 else rng.sample(list(itertools.permutations(cmds)), 2)):
+            out.append(Scenario(list(p), ops=rand_ops(rng, cmds)))
     return out
 
 
@@ -179,6 +261,13 @@ def oracle(ctx, sc, res):
         if not is_final:
             ctx.fail("%s read a result of %s that is not that command's finished result" % (consumer, producer), sc.describe())
             return
+    # ... and it reads the results it names, no others: as often as it names them (a command executed once reads each reference once)
+    for cmd in list(sc.commands) + [o[1] for o in sc.ops if o[0] in ("add", "addobj")]:
+        if starts.count(cmd[0]) == 1:
+            got = sorted(prod for consumer, prod, _f, _i in res["reads"] if consumer == cmd[0])
+            if got != sorted(graphs.refs_of(cmd)):
+                ctx.fail("%s names the results %r but read the results of %r" % (cmd[0], sorted(graphs.refs_of(cmd)), got), sc.describe())
+                return
     pos = {e: i for i, e in enumerate(res["log"])}
     for (name, _, _), cmd in zip(sc.commands, sc.commands):
         for d in set(graphs.refs_of(cmd)):
@@ -296,6 +385,228 @@ def typed_consumers(ctx):
                     break
 
 
+def api_spellings(ctx):
+    """result names a program gets through the programming interface (add_command takes any text: field names of a table, names with blanks or
+    accents) that collapse under lower / upper / casefold, under trimming or squeezing of blanks, under Unicode normalisation, or that are numerals of
+    one value: still one result each; every consumer - direct and through a list - reads the one it names, everything executes once"""
+    from collections import OrderedDict
+    from mpilot.program import Program
+    m = prog.testlib()
+    rng = ctx.rng
+    groups = (["Temp", "TEMP", "temp"], ["Stra\u00dfe", "STRASSE", "strasse", "stra\u00dfe"], ["a b", "a  b", " a b", "a b ", "a\tb"],
+              ["\u00e9", "e\u0301", "\u00c9"],                                            # e-acute composed, decomposed, upper case
+              ["\u0130stanbul", "istanbul", "\u0131stanbul", "ISTANBUL"],                 # dotted capital I, dotless small i
+              ["1", "01", "1.0", "\uff11", "+1"])                                          # numerals of one value (U+FF11 = fullwidth 1)
+    for names in groups:
+        for rep in range(ctx.budget(1, 30)):
+            steps = [(nm, OrderedDict()) for nm in names] + [("use %d" % i, OrderedDict([("One", nm)])) for i, nm in enumerate(names)]
+            steps.append(("use all", OrderedDict([("Many", list(names)), ("Nested", [[names[-1]], [names[0]]])])))
+            rng.shuffle(steps)
+            rec = progrun.Recorder()
+            with progrun.stubbed([m.N], rec):
+                try:
+                    p = Program(libraries=(prog.TESTLIB,))
+                    for res, args in steps:
+                        p.add_command(m.N, res, args)
+                    p.run()
+                    p.commands[names[0]].result
+                    p.run()
+                    out = "ok"
+                except Exception as e:
+                    out = progrun.classify(e)
+            ctx.case("api-spellings %r %r" % (names, [st[0] for st in steps]), sample=None)
+            ctx.count("api_spelling_cases")
+            desc = {"built_with": "Program.add_command(N, result_name, arguments) in this order, then run(), a result read, run()", "commands": [[r, dict(a)] for r, a in steps]}
+            if out != "ok":
+                ctx.fail("a well-formed model over the result names %r failed: %s" % (names, out), desc)
+                continue
+            starts = [e[1:] for e in rec.log if e[0] == "+"]
+            bad = [res for res, _a in steps if starts.count(res) != 1]
+            if bad:
+                ctx.fail("command %r executed %d times (expected exactly once)" % (bad[0], starts.count(bad[0])), desc)
+                continue
+            for res, args in steps:
+                want = sorted([args["One"]] if "One" in args else []) if "Many" not in args else sorted(args["Many"] + [g[0] for g in args["Nested"]])
+                got = sorted(prod for consumer, prod, _f, _i in rec.reads if consumer == res)
+                if got != want:
+                    ctx.fail("%r names the results %r but read the results of %r" % (res, want, got), desc)
+                    break
+
+
+SCALE_LIB = "mpverif_c01scale"
+
+SCALE_SRC = '''
+import numpy
+from mpilot import params
+from mpilot.commands import Command
+
+READS = []        # (consumer, producer, the object the consumer was handed)
+
+
+class Grid(Command):
+    """producer: a field of Cells cells in Rows rows, the first cell missing"""
+    inputs = {"Cells": params.NumberParameter(), "Rows": params.NumberParameter(), "Kind": params.StringParameter(required=False)}
+    output = params.DataParameter()
+
+    def execute(self, **kw):
+        a = numpy.ma.masked_array(numpy.arange(kw["Cells"], dtype=kw.get("Kind", "float64")).reshape(kw["Rows"], -1) % 97)
+        a[0, 0] = numpy.ma.masked
+        return a
+
+
+class Scale(Command):
+    """intermediate: a new field of the same size"""
+    inputs = {"In": params.ResultParameter(params.DataParameter())}
+    output = params.DataParameter()
+
+    def execute(self, **kw):
+        r = kw["In"].result
+        READS.append((self.result_name, kw["In"].result_name, r))
+        return r * 0.5
+
+
+class Pick(Command):
+    """consumer: a few numbers taken from every field listed"""
+    inputs = {"Of": params.ListParameter(params.ResultParameter(params.DataParameter()))}
+    output = params.DataParameter()
+
+    def execute(self, **kw):
+        out = []
+        for c in kw["Of"]:
+            r = c.result
+            READS.append((self.result_name, c.result_name, r))
+            out.append(float(r.reshape(-1)[-1]))
+        return numpy.ma.masked_array(out)
+'''
+
+# models of the ladder: {n} = cells, {r} = rows, {k} = element type.  Producer -> intermediate(s) -> consumer(s); built-in commands in between
+SCALE_MODELS = {
+    "chain": ["G = Grid(Cells = {n}, Rows = {r}, Kind = {k})", "H = Scale(In = G)", "T = Pick(Of = [H])"],
+    "diamond": ["G = Grid(Cells = {n}, Rows = {r}, Kind = {k})", "H = Scale(In = G)", "S = Sum(InFieldNames = [G, H])", "T = Pick(Of = [H, S])"],
+    "levels": ["G = Grid(Cells = {n}, Rows = {r}, Kind = {k})", "H = Copy(InFieldName = G)", "I = Scale(In = H)", "J = AMinusB(A = H, B = I)", "T = Pick(Of = [J])", "U = Pick(Of = [I, J])"],
+}
+
+
+def fingerprint(a):
+    import numpy
+    if not isinstance(a, numpy.ndarray):
+        return repr(a)
+    return (a.shape, str(a.dtype), int(numpy.ma.count_masked(a)), float(numpy.ma.filled(a, 0).sum(dtype="float64")))
+
+
+def scale_ladder(ctx):
+    """"exactly once" and "reading a result again executes nothing further" are stated for every program, whatever the size of its fields: the same three small
+    models (producer -> intermediate results -> consumers; plug-in commands and built-in ones) on a ladder of field sizes from a handful of cells to several
+    million (tens of megabytes per result - where an implementation may be tempted to drop or recompute intermediate results), 1, 3 or 1000 rows, 8- and 4-byte
+    cells.  After run(): every result - the intermediate ones first - is read again, run() is called again, a consumer of an intermediate result is added and run:
+    executions are counted around every `execute`, every result read must be the one its body returned, every consumer must have been handed exactly that"""
+    import contextlib, gc, sys, types
+    from collections import OrderedDict
+    from mpilot.program import Program
+    if SCALE_LIB not in sys.modules:
+        m = types.ModuleType(SCALE_LIB)
+        sys.modules[SCALE_LIB] = m
+        exec(compile(SCALE_SRC, SCALE_LIB, "exec"), m.__dict__)
+    m = sys.modules[SCALE_LIB]
+    libs = ("mpilot.libraries.eems.basic", SCALE_LIB)
+    rng = ctx.rng
+    runs, returned = [], {}
+
+    @contextlib.contextmanager
+    def counted(classes):
+        saved = [(c, c.__dict__["execute"]) for c in classes]
+
+        def wrap(orig):
+            def execute(self, **kw):
+                runs.append(self.result_name)
+                out = orig(self, **kw)
+                returned.setdefault(self.result_name, []).append(out)
+                return out
+            return execute
+        for c, orig in saved:
+            c.execute = wrap(orig)
+        try:
+            yield
+        finally:
+            for c, orig in saved:
+                c.execute = orig
+    lib = Program(libraries=libs).command_library
+    used = [lib[n] for n in ("Grid", "Scale", "Pick", "Sum", "Copy", "AMinusB")]
+    # the ladder: every model at every size up to 10^5 in three file orders and three histories; above, each size once per model, order and history rotating
+    plan = []
+    for model in sorted(SCALE_MODELS):
+        for n in (6, 3000, 100000):
+            for order in ("inputs-first", "users-first", "shuffled"):
+                rows = rng.choice([1, 3, 1000 if n % 1000 == 0 else 2])
+                plan.append((model, n - n % rows, rows, "float64", order, ("after", "before", "late")[len(plan) % 3]))
+    k = rng.randrange(6)
+    for i, n in enumerate((600000, 1500000, 2500000, 4000000, 6000000)):
+        # the top of the ladder (32 / 48 MB per result) with two / one of the models, rotating: keeps the check to a few seconds and a few hundred megabytes
+        for model in sorted(SCALE_MODELS) if n <= 2500000 else [sorted(SCALE_MODELS)[(k + j) % 3] for j in range(6000000 // n + (n < 6000000))]:
+            k += 1
+            rows = (3, 1000, 1)[k % 3]
+            n_ = n + 3000 * rng.randrange(0, 30)
+            plan.append((model, n_ - n_ % rows, rows, "float32" if k % 5 == 0 else "float64",
+                         ("users-first", "shuffled", "inputs-first")[k % 3], ("after", "late", "before")[(k // 3) % 3]))
+    for model, n, rows, kind, order, history in plan:
+        lines = [ln.format(n=n, r=rows, k=kind) for ln in SCALE_MODELS[model]]
+        if order == "users-first":
+            lines.reverse()
+        elif order == "shuffled":
+            rng.shuffle(lines)
+        src = "\n".join(lines) + "\n"
+        names = [ln.split(" = ")[0] for ln in lines]
+        inner = [nm for nm in sorted(names) if nm not in ("T", "U")]
+        # histories: read everything after run / a consumer's result read before the first run / a consumer of an intermediate result added after run
+        ops = {"after": [("run",)] + [("read", nm) for nm in inner + ["T"]] + [("run",), ("read", inner[-1])],
+               "before": [("read", "T"), ("read", inner[0]), ("run",)] + [("read", nm) for nm in inner] + [("run",)],
+               "late": [("run",), ("add", "late", inner[-1]), ("read", inner[0]), ("run",), ("read", "late"), ("add", "late2", inner[0]), ("run",)]}[history]
+        del runs[:]; returned.clear(); del m.READS[:]
+        desc = {"source": src, "ops": [list(o) for o in ops], "libraries": list(libs), "cells_per_result": n, "bytes_per_result": n * (4 if kind == "float32" else 8),
+                "plugin_library": "harness/props/c01.py SCALE_SRC (module %s); add = Program.add_command(Pick, name, {Of: [result]})" % SCALE_LIB}
+        ctx.case("scale %s %d %d %s %s %s" % (model, n, rows, kind, order, history), sample=None)
+        ctx.count("scale_ladder_cases")
+        ctx.count("scale_cells:1e%d" % (len(str(n)) - 1))
+        problem = None
+        p = None
+        with counted(used):
+            try:
+                p = Program.from_source(src, libraries=libs)
+                present = list(names)
+                for i, op in enumerate(ops):
+                    at = "after %s" % " ".join("%s(%s)" % (o[0], ", ".join(o[1:])) for o in ops[:i + 1])
+                    if op[0] == "run":
+                        p.run()
+                        missing = [nm for nm in present if runs.count(nm) == 0]
+                        if missing:
+                            problem = "%s: %r never executed" % (at, missing)
+                    elif op[0] == "add":
+                        p.add_command(lib["Pick"], op[1], OrderedDict([("Of", [op[2]])]))
+                        present.append(op[1])
+                    else:
+                        got = p.commands[op[1]].result
+                        if runs.count(op[1]) == 1 and fingerprint(got) != fingerprint(returned[op[1]][0]):
+                            problem = "%s: the result of %s read is %r, its body returned %r" % (at, op[1], fingerprint(got), fingerprint(returned[op[1]][0]))
+                    twice = [nm for nm in present if runs.count(nm) > 1]
+                    if twice and not problem:
+                        problem = "%s: executions %r (expected at most once each: %s executed again)" % (at, dict((nm, runs.count(nm)) for nm in present), ", ".join(twice))
+                    if problem:
+                        break
+                if not problem:
+                    for consumer, producer, got in m.READS:
+                        if fingerprint(got) != fingerprint(returned[producer][0]):
+                            problem = "%s was handed %r as the result of %s, whose body returned %r" % (consumer, fingerprint(got), producer, fingerprint(returned[producer][0]))
+                            break
+            except Exception as e:
+                problem = "a well-formed acyclic model failed: %s" % progrun.classify(e)
+        if problem:
+            ctx.fail("%d cells per result (%s model, written %s): %s" % (n, model, order, problem), desc)
+        del p
+        returned.clear(); del m.READS[:]
+        got = None
+        gc.collect()
+
+
 def run(ctx):
     ctx.check_proofs(["MPilot.Props.C01", "MPilot.Props.C01Hist"])
     model = common.Model()
@@ -312,6 +623,8 @@ def run(ctx):
             ctx.disagree("run-loop", sc.describe(), d[0][:600], d[1][:600])
         oracle(ctx, sc, res)
     typed_consumers(ctx)
+    api_spellings(ctx)
+    scale_ladder(ctx)
     return ctx.finish(
         rule="scenarios = (acyclic graph over opaque logging commands with references through direct parameters, lists and nested lists, "
              "repeated references, fan-in <= 5; textual order: every permutation for <= 3 commands, sampled above; chains of 20-60; "
